@@ -95,8 +95,10 @@ func (it *NativeIterator) Merge(oldval []byte) (val []byte, err error) {
 
 		// Sweeper: check if it is a stale deletion record to not re-add a
 		// record that may just have been swept.
+		// In formatVersion 1 an empty value denotes a deletion (see addHeader).
 		entryFlags := entry.MaskedFlags()
-		if entryFlags.IsDeleted() && header.Timestamp(entry.TimestampNano) < it.DeletedCutoff {
+		deleted := entryFlags.IsDeleted() || (len(entryVal) == 0 && it.FormatVersion < 2)
+		if deleted && header.Timestamp(entry.TimestampNano) < it.DeletedCutoff {
 			// Remove (effectively 'do not add', because it does not exist)
 			return nil, nil
 		}
